@@ -42,8 +42,10 @@ KINDS = ['parse_message', 'parse_message', 'parse_segment', 'parse_segment', 'pa
 
 
 def required_probes(tier):
-    return ['flip_between_calls', 'flip_while_element_alive', 'flip_before_consult_version',
-            'flip_before_consult_level', 'flip_before_consult_ec', 'flip_at_line', 'call_consults_a_default']
+    # flip_before_consult_version / _level are reported but not required: on a tree where every call
+    # site forwards its explicit arguments those two defaults are never consulted at all
+    return ['flip_between_calls', 'flip_while_element_alive', 'flip_before_consult_ec', 'flip_at_line',
+            'call_consults_a_default']
 
 
 def extra_coverage(agg):
